@@ -451,7 +451,7 @@ func init() {
 	})
 	addProp(&PropSpec{
 		ID:          "C16",
-		Rules:       []string{"R-METHODTYPES", "R-F2I", "R-FINITE", "R-OVF", "R-TOWER", "R-STATE"},
+		Rules:       []string{"R-METHODTYPES", "R-F2I", "R-FINITE", "R-OVF", "R-TOWER", "R-STATE", "R-RADIX"},
 		Explanation: "Domains and ranges of the item methods as finite tables and guard discipline: for each of the 12 methods the set of item types that reach the continuation is computed by walking the method with the input type fixed (abstract interpretation) and compared with the documented domain, every other type must leave through a suppressible error; conversions to integers are range-guarded as evaluated in float64; computed doubles are finiteness-checked; integer callbacks cannot wrap; the numeric representations are handled together; no method arm is missing.",
 		Decided: []string{"R-METHODTYPES: accepted-type table of all 12 methods (156 cells) and suppressible rejection", "R-F2I: .integer()/.bigint() conversions are range-safe (2^63 included)",
 			"R-FINITE: .double()/.number()/.decimal() never yield Inf/NaN", "R-OVF: .abs() cannot wrap", "R-TOWER", "R-METHODTYPES also reports a method constant without an arm in the dispatcher"},
@@ -554,16 +554,45 @@ var ruleLitChain = &Rule{
 					recv := c.Call.Args[0]
 					key := fmt.Sprintf("%s reads the value of a %s #%d", fnName(fn), rn.Obj().Name(), ord.next(fnName(fn)))
 					// (a) the same node goes to the continuation in this function
-					handled := false
-					for _, c2 := range p.allCalls(fn) {
-						if sig := calleeSig(c2); sig == nil || p.pairKind(sig) != "status" {
-							continue
-						}
-						for _, a := range c2.Call.Args {
-							if sameNodeValue(a, recv) {
-								handled = true
+					// every use of the value is an argument of a status-returning
+					// call that receives the same node as well
+					handled := true
+					nuses := 0
+					var uses func(v ssa.Value, depth int)
+					uses = func(v ssa.Value, depth int) {
+						for _, r := range *v.Referrers() {
+							switch x := r.(type) {
+							case *ssa.MakeInterface:
+								if depth < 3 {
+									uses(x, depth+1)
+								}
+							case *ssa.Convert:
+								if depth < 3 {
+									uses(x, depth+1)
+								}
+							case *ssa.DebugRef:
+							case *ssa.Call:
+								nuses++
+								with := false
+								if sig := calleeSig(x); sig != nil && p.pairKind(sig) == "status" {
+									for _, a := range x.Call.Args {
+										if sameNodeValue(a, recv) {
+											with = true
+										}
+									}
+								}
+								if !with {
+									handled = false
+								}
+							default:
+								nuses++
+								handled = false
 							}
 						}
+					}
+					uses(c, 0)
+					if nuses == 0 {
+						handled = false
 					}
 					if handled {
 						out.ok(key, p.pos(c.Pos()), fnName(fn), "the node itself is handed to the continuation, which evaluates its chain")
